@@ -334,10 +334,6 @@ func (ci *crdIpam) Shutdown() {
 // ConfigurePool init floatingIP pool.
 // #lizard forgives
 func (ci *crdIpam) ConfigurePool(floatIPs []*FloatingIPPool) error {
-	defer func() {
-		glog.Infof("Configure pool done, %d fip pool, %d unallocated, %d allocated", len(ci.FloatingIPs),
-			len(ci.unallocatedFIPs), len(ci.allocatedFIPs))
-	}()
 	sort.Sort(FloatingIPSlice(floatIPs))
 	ips, err := ci.listFloatingIPs()
 	if err != nil {
@@ -404,6 +400,8 @@ func (ci *crdIpam) ConfigurePool(floatIPs []*FloatingIPPool) error {
 		})
 	}
 	ci.unallocatedFIPs = tmpCacheUnallocated
+	glog.Infof("Configure pool done, %d fip pool, %d unallocated, %d allocated", len(ci.FloatingIPs),
+		len(ci.unallocatedFIPs), len(ci.allocatedFIPs))
 	return nil
 }
 
